@@ -74,3 +74,41 @@ def positions(phi, path=()):
     elif op == 'jump': yield from positions(phi[2], path + (2,))
     elif op not in ('true', 'false', 'prop', 'var', 'wild'):
         for i, c in enumerate(phi[1:], 1): yield from positions(c, path + (i,))
+
+# ------------------------------------------------------------------ bounded-exhaustive enumeration of small formulas
+def enumerate_formulas(size, scope=(), props=('v0',), wild=('w',), doms=(None, 'd'), un=('not', 'EX', 'AG', 'EF'), bins=('and', 'EU'), quants=('bind', 'exists', 'forall'), jump=True):
+    """every formula with exactly `size` nodes over the given (reduced) alphabet; variables named by depth; closed w.r.t. scope"""
+    scope = tuple(scope)
+    if size == 1:
+        for p in props: yield ('prop', p)
+        for w in wild: yield ('wild', w)
+        for v in scope: yield ('var', v)
+        return
+    for u in un:
+        for a in enumerate_formulas(size - 1, scope, props, wild, doms, un, bins, quants, jump): yield (u, a)
+    for b in bins:
+        for k in range(1, size - 1):
+            for l in enumerate_formulas(k, scope, props, wild, doms, un, bins, quants, jump):
+                for r in enumerate_formulas(size - 1 - k, scope, props, wild, doms, un, bins, quants, jump): yield (b, l, r)
+    if len(scope) < 3:
+        v = VARNAMES[len(scope)]
+        for q in quants:
+            for d in doms:
+                for a in enumerate_formulas(size - 1, scope + (v,), props, wild, doms, un, bins, quants, jump): yield (q, v, d, a)
+    if jump:
+        for v in scope:
+            for a in enumerate_formulas(size - 1, scope, props, wild, doms, un, bins, quants, jump): yield ('jump', v, a)
+
+def sample_small(rng, count, sizes=(3, 4, 5), **kw):
+    """seed-chosen sample of the bounded-exhaustive space (reservoir sampling per size)"""
+    out = []
+    per = max(1, count // len(sizes))
+    for sz in sizes:
+        res = []
+        for i, f in enumerate(enumerate_formulas(sz, **kw)):
+            if len(res) < per: res.append(f)
+            else:
+                j = rng.randrange(i + 1)
+                if j < per: res[j] = f
+        out += res
+    return out
